@@ -48,7 +48,7 @@ GenSpec == GenInit /\ [][GenNext]_gvars
 Differs(h) == \E i \in 1..Len(h) : h[i].proj # h[i].dproj
 
 CaseIn(h) == [kind |-> "stream",
-              cfg |-> [conf |-> sconf.sc, nreq |-> MaxReq],
+              cfg |-> [conf |-> sconf.sc, nreq |-> MaxReq, tickms |-> TickMs],
               ops |-> [i \in 1..Len(h) |-> OpJson(h[i].op)]]
 
 \* eff: what the getters of the configuration object say (carried by the
